@@ -1,7 +1,8 @@
 From Coq Require Extraction ExtrOcamlBasic.
-From GV Require Import Base.Grammar Base.Analyses LR.Automaton LR.Validator C03.Model C16.Model.
+From GV Require Import Base.Grammar Base.Analyses LR.Automaton LR.Validator C03.Model C16.Model C16.ExactSpec.
 Extraction Language OCaml.
 Extraction "model.ml" mkGrammar mkDump of_dump run lhs rhs
   mkPrec precs_of cell_spec has_candidate table_mirror wf_state_b prec_consistent_b
   views_of_dump coherent_b row_b actions_b shifts_b targets_b core_reduces_b reduce_only_b reduce_only_ref
-  all_reachable_b closure_b first_ref views_row reach_states lr1_closure triples_of.
+  all_reachable_b closure_b first_ref views_row reach_states lr1_closure triples_of
+  wf_grammar vS1 vS5 dump_edges_in_syms_b core_la_in_toks_b.
